@@ -1519,6 +1519,13 @@ def apply_method_contract(eng, fi, c, args, kwargs, node):
     checkpoint(eng, 'call:%s#%d' % (fi.node.name, eng.callcount[nm]))
     for i, r in enumerate(c.requires):
         eng.prove('pre@%s.%d' % (siteid, i + 1), eng.pure_bool(r, fr_c), kind='pre')
+    if not c.extra.get('no_invariant_at_entry'):
+        # the callee's own verification ASSUMES the object invariant at its entry (minus the clauses it declares exempt):
+        # the caller owes it here - an invariant broken before the call would otherwise be silently "repaired" by the
+        # assumption made after the call
+        for ref in eng.st.ghost.get('inv_objects', {}).values():
+            H.assert_invariant(eng, ref, 'at-call-of#%d(%s)' % (eng.callcount[nm], fi.node.name),
+                               exempt=set(c.extra.get('inv_exempt_at_entry', [])))
     # an @inlineCallbacks function never raises at the call: an exception in its body becomes a failed Deferred
     craises = {} if fi.is_inline_callbacks else c.raises
     outcomes = [('ok', None)] + [(k_, eng.pure_bool(v_[4:] if v_.startswith('iff:') else v_, fr_c)) for k_, v_ in craises.items()]
